@@ -361,9 +361,10 @@ func c09BuildWorld(scheme *crypto.Scheme, portBase int, opts c09WorldOpts) (w *c
 		Nodes: map[string]*c09Node{}, Stages: map[string]map[string][]byte{}, Terms: map[int]*drand.ProposalTerms{},
 		Real: map[string]*drand.GossipPacket{}}
 	w.conf = Config{Timeout: time.Hour, TimeBetweenDKGPhases: 3 * time.Second, KickoffGracePeriod: 1 * time.Second}
+	built := w
 	defer func() {
 		if err != nil {
-			w.close()
+			built.close()
 		}
 	}()
 	for i, name := range c09Cast {
